@@ -213,7 +213,31 @@ fn cli_one(seed: u64, idx: u64, work: &Path, rep: &mut Report) {
     let mut rng = Rng::derive(seed, 2, idx);
     rep.evaluations += 1;
     let bs = *rng.pick(&CLI_BS);
-    let c = gen_case(&mut rng, bs, if bs >= 16384 { 5 * bs } else { 48 * 1024 });
+    let mut c = gen_case(&mut rng, bs, if bs >= 16384 { 5 * bs } else { 48 * 1024 });
+    if idx % 10 == 3 {
+        // block-level rearrangements of a tail-free basis: same length, zero literal bytes, different content
+        let nb = rng.range(2, 6);
+        let blocks: Vec<Vec<u8>> = (0..nb).map(|i| { let mut b = rng.bytes(bs); b[0] = i as u8; b }).collect();
+        c.basis = blocks.concat();
+        let mut order: Vec<usize> = (0..nb).collect();
+        match rng.below(3) {
+            0 => order.swap(0, nb - 1),
+            1 => order[nb - 1] = order[0],
+            _ => order.rotate_left(1),
+        }
+        c.source = order.iter().flat_map(|&i| blocks[i].clone()).collect();
+        c.meta.edit_shape = "block-rearrangement".into();
+        rep.count("cli_cases_block_rearrangement", 1);
+    }
+    if idx % 50 == 7 {
+        // a literal run of several MiB: the async engine then writes more than one buffer-full per op
+        let n = rng.range(2 * 1024 * 1024 + 1, 5 * 1024 * 1024);
+        let at = rng.range(0, c.source.len());
+        let big = rng.bytes(n);
+        c.source.splice(at..at, big);
+        c.meta.edit_shape.push_str("+bigliteral");
+        rep.count("cli_cases_with_literal_over_2MiB", 1);
+    }
     let dir = work.join(format!("c{idx}"));
     let _ = std::fs::remove_dir_all(&dir);
     std::fs::create_dir_all(&dir).unwrap();
